@@ -140,7 +140,25 @@ func readLines(p string) []string {
 	return strings.Split(string(b), "\n")
 }
 
+// one: the record of a case, with every list present (TLC's JSON reader has no null)
 func one(raw json.RawMessage) interface{} {
+	rec := oneCase(raw)
+	for i := range rec.Texts {
+		t := &rec.Texts[i]
+		if t.Before == nil {
+			t.Before = []string{}
+		}
+		if t.After == nil {
+			t.After = []string{}
+		}
+		if t.SiteLines == nil {
+			t.SiteLines = []SiteLine{}
+		}
+	}
+	return rec
+}
+
+func oneCase(raw json.RawMessage) Record {
 	var c Case
 	if err := json.Unmarshal(raw, &c); err != nil {
 		panic(err)
